@@ -78,3 +78,24 @@ Theorem C01_process_runner_returns_reference : forall c maxw o r w,
   map (fun kv => (fst kv, Some (snd kv))) r = map (fun t => (t, pure c t)) (dedup (req c)).
 Proof. exact (process_runner_returns_reference proc_params_src eq_refl eq_refl eq_refl eq_refl). Qed.
 Print Assumptions C01_process_runner_returns_reference.
+
+(* ---- workers that finish while the executor is inside wait() *)
+Require Import LT.Model.Exec LT.Proofs.ExecProofs LT.Proofs.ExecLate.
+
+(* With the liveness snapshot where the current source takes it (before the result queue is drained), worker processes that
+   deliver their result and exit — or are killed — after the drain of one wait() leave that call exactly as it would have
+   been without them and are seen by the next one: nothing is lost, nobody who delivered a result is declared dead.  (This is
+   also why the harness may book such a worker as having finished before the next wait.) *)
+Theorem C01_worker_finishing_during_wait : forall late e,
+  (forall s, In s late -> ~ In (env_id s) (pendq (consume e))) ->
+  wait_fine start_policy_src snapshot_src late e = fold_left env late (wait start_policy_src wait_policy_src e).
+Proof. exact (fun late e => wait_late_commutes StartUpToMax late e ltac:(discriminate)). Qed.
+Print Assumptions C01_worker_finishing_during_wait.
+
+(* ... which fails for a snapshot taken after the drain: the future of a worker that delivered a result fails as "died". *)
+Theorem C01_snapshot_after_drain_refuted : exists e late i,
+  ExInv e /\ late = [EnvPut i true; EnvExit i] /\
+  fut_of (wait_fine StartUpToMax SnapAfter late e) i = FFinished false /\
+  fut_of (wait StartUpToMax WaitAlwaysStarts (wait_fine StartUpToMax SnapBefore late e)) i = FFinished true.
+Proof. exact snapshot_after_drain_refuted. Qed.
+Print Assumptions C01_snapshot_after_drain_refuted.
